@@ -625,7 +625,9 @@ impl ValueMeta for Expression {
                 None => false,
             },
             Number(meta, value) => {
-                let value = FieldElement { value: value.clone() };
+                // A literal denotes a field element (the compiler reduces literals modulo the
+                // prime when the file is read).
+                let value = FieldElement { value: &*value % env.prime() };
                 meta.value_knowledge_mut().set_reduces_to(value)
             }
             Call { args, .. } => {
